@@ -303,3 +303,10 @@ var Presets = map[string]Features{
 	"small": {Scopes: 2, Ctors: 3, Decs: 1, Invs: 1, Types: 3, PNamed: 0.15, POpt: 0.25, PGroup: 0.2,
 		PSoft: 0.3, PFlat: 0.3, PExport: 0.3, PMulti: 0.3, PAs: 0.15, PCb: 0.3, PObj: 0.4, PGroupDec: 0.3, MaxParams: 2},
 }
+
+func init() {
+	Presets["medium"] = Features{Scopes: 3, Ctors: 6, Decs: 2, Invs: 3, Types: 4, PNamed: 0.15, POpt: 0.25, PGroup: 0.25,
+		PSoft: 0.3, PFlat: 0.3, PExport: 0.3, PMulti: 0.3, PAs: 0.15, PCb: 0.4, PObj: 0.4, PGroupDec: 0.3, MaxParams: 3}
+	Presets["large"] = Features{Scopes: 4, Ctors: 12, Decs: 4, Invs: 4, Types: 6, PNamed: 0.2, POpt: 0.25, PGroup: 0.25,
+		PSoft: 0.3, PFlat: 0.3, PExport: 0.3, PMulti: 0.35, PAs: 0.15, PCb: 0.4, PObj: 0.4, PGroupDec: 0.3, MaxParams: 3}
+}
